@@ -264,7 +264,7 @@ func TestCheck(t *testing.T) {
 	nh := ev.Pick(6, 24)
 	nb := ev.Pick(120, 250)
 	w := vchain.DefaultWeights
-	w.GasTransfer, w.NeoTransfer, w.Vote, w.Candidate, w.Notary, w.Payment, w.Fault = 14, 16, 16, 8, 10, 10, 8
+	w.GasTransfer, w.NeoTransfer, w.Vote, w.Candidate, w.Notary, w.Payment, w.Fault, w.NotaryAssisted, w.Role = 14, 16, 16, 8, 12, 10, 8, 12, 4
 	var cnt counters
 	for hi := 0; hi < nh; hi++ {
 		var prev *snap
